@@ -46,8 +46,8 @@ DREG = 10                          # the deny region (highest priority used)
 
 def plan(tier, seed):
     if tier == 'quick':
-        return [{'k': 'translate'}] * 3000 + [{'k': 'deny'}] * 4500 + [{'k': 'align'}] * 1500 + [{'k': 'revoke'}] * 1500
-    return [{'k': 'translate'}] * 100000 + [{'k': 'deny'}] * 150000 + [{'k': 'align'}] * 50000 + [{'k': 'revoke'}] * 50000
+        return [{'k': 'translate'}] * 8000 + [{'k': 'deny'}] * 12000 + [{'k': 'align'}] * 4000 + [{'k': 'revoke'}] * 4000
+    return [{'k': 'translate'}] * 200000 + [{'k': 'deny'}] * 300000 + [{'k': 'align'}] * 80000 + [{'k': 'revoke'}] * 100000
 
 
 # =================================================================== translate
